@@ -61,6 +61,51 @@ struct Sc {
     /// None: leave the default maximum (usize::MAX)
     cap0: Option<usize>,
     ops: Vec<Op>,
+    /// first serial handed out (decides which legal size hint / which form of try_extend the first bulk
+    /// insertions use)
+    #[serde(default = "one")]
+    serial0: usize,
+}
+
+fn one() -> usize {
+    1
+}
+
+/// The alphabet of the ENUMERATED histories: every operation with every argument 0..=3.
+fn enum_alphabet() -> Vec<Op> {
+    let mut v = vec![Op::Push, Op::Pop, Op::Pop2, Op::Pop3, Op::Top, Op::Top2, Op::Top3, Op::Queries, Op::CloneEq, Op::PushManyHuge(0)];
+    for k in 0..=3usize {
+        v.extend([Op::Discard(k), Op::PushMany(k), Op::TryExtend(k), Op::SetMax(k)]);
+    }
+    v
+}
+
+/// Number of enumerated histories: every sequence of 1..=4 operations of the alphabet x initial capacities 0..=3.
+fn enum_cells() -> u64 {
+    let a = enum_alphabet().len() as u64;
+    4 * (a + a * a + a * a * a + a * a * a * a)
+}
+
+fn enum_cell(idx: u64) -> Sc {
+    let alpha = enum_alphabet();
+    let a = alpha.len() as u64;
+    let cap0 = (idx % 4) as usize;
+    let mut k = idx / 4;
+    let mut len = 1u32;
+    loop {
+        let block = a.pow(len);
+        if k < block || len == 4 {
+            break;
+        }
+        k -= block;
+        len += 1;
+    }
+    let mut ops = Vec::with_capacity(len as usize);
+    for _ in 0..len {
+        ops.push(alpha[(k % a) as usize].clone());
+        k /= a;
+    }
+    Sc { kind: if idx % 7 == 3 { Kind::Str } else { Kind::Usize }, cap0: Some(cap0), ops, serial0: 1 + (mix(idx, 0x51) % 24) as usize }
 }
 
 trait Elem: Clone + PartialEq + std::fmt::Debug {
@@ -178,7 +223,7 @@ fn run_history<T: Elem>(sc: &Sc, obs: &mut Obs) -> Vec<Violation> {
         st.set_max_stack_size(c);
         m.max = c;
     }
-    let mut serial = 1usize;
+    let mut serial = sc.serial0.max(1);
     let mut faults = 0u64;
     let mut mutations = 0u64;
 
@@ -534,7 +579,8 @@ impl Check for C04 {
     }
 
     fn rule(&self) -> String {
-        "seeded histories of <= 40 stack operations (swarm-weighted op mix, capacities 0..=6 / 64 / usize::MAX, \
+        "ENUMERATED: every history of 1..=4 operations (each operation with every argument 0..=3) x initial capacity 0..=3; \
+         SEEDED: histories of <= 40 stack operations (swarm-weighted op mix, capacities 0..=6 / 64 / usize::MAX, \
          element types usize and String); a history is non-trivial iff >= 1 fault fired (overflow, underflow, \
          capacity lowered below size, overrunning iterator, huge range) and >= 3 mutating operations succeeded; \
          distinct = distinct (capacity, op sequence) fingerprints"
@@ -543,12 +589,16 @@ impl Check for C04 {
 
     fn runs(&self, tier: Tier) -> u64 {
         match tier {
-            Tier::Quick => 5_000_000,
-            Tier::Thorough => 500_000_000,
+            Tier::Quick => 5_000_000 + enum_cells(),
+            Tier::Thorough => 500_000_000 + enum_cells(),
         }
     }
 
     fn generate(&self, g: &mut Xo, _tier: Tier, run: u64) -> Sc {
+        if run < enum_cells() {
+            // the enumerated short histories (most defects of a container show within three or four operations)
+            return enum_cell(run);
+        }
         let kind = if g.chance(1, 5) { Kind::Str } else { Kind::Usize };
         let cap0 = match g.below(10) {
             0 => None,
@@ -602,7 +652,7 @@ impl Check for C04 {
                 _ => Op::CloneEq,
             })
             .collect();
-        Sc { kind, cap0, ops }
+        Sc { kind, cap0, ops, serial0: 1 }
     }
 
     fn execute(&self, sc: &Sc, obs: &mut Obs) -> Vec<Violation> {
